@@ -958,24 +958,46 @@ func (s *State) lookup(fr *Frame, in *ssa.Lookup) Value {
 	return nil
 }
 
-func (s *State) mapLookup(m MapRef, k Value) (Value, bool) {
+// symKey reports whether k is a string with symbolic bytes.
+func (s *State) symKey(k Value) (*SymStr, bool) {
 	if ss, ok := k.(*SymStr); ok {
 		if _, conc := s.concreteStr(ss); !conc {
-			// symbolic key: compare with every (concrete) key of the map
-			md := s.mapData(m, false)
-			for _, ks := range sortedKeys(md) {
-				e := md.M[ks]
-				eq := s.strEq(ss, e.K)
-				hit := false
-				switch c := eq.(type) {
-				case bool:
-					hit = c
-				case *Term:
-					hit = s.decide(c, "mapkey")
-				}
-				if hit {
-					return copyVal(e.V), true
-				}
+			return ss, true
+		}
+	}
+	return nil, false
+}
+
+// findEntry locates the entry whose key equals k when k or some key of the
+// map has symbolic bytes: keys are compared one by one (deciding each
+// equality, which may fork).
+func (s *State) findEntry(md *MapData, k Value) (string, bool) {
+	for _, ks := range md.Keys {
+		e := md.M[ks]
+		eq := s.strEq(k, e.K)
+		hit := false
+		switch c := eq.(type) {
+		case bool:
+			hit = c
+		case *Term:
+			hit = s.decide(c, "mapkey")
+		}
+		if hit {
+			return ks, true
+		}
+	}
+	return "", false
+}
+
+func (s *State) mapLookup(m MapRef, k Value) (Value, bool) {
+	md0 := s.mapData(m, false)
+	if _, sym := s.symKey(k); sym || md0.SymKeys {
+		if _, isStr := k.(string); isStr || sym {
+			if s.AccessLog != nil {
+				s.AccessLog.note(s, Ptr{Obj: m.Obj}, false)
+			}
+			if ks, ok := s.findEntry(md0, k); ok {
+				return copyVal(md0.M[ks].V), true
 			}
 			return nil, false
 		}
